@@ -8,6 +8,7 @@
 From Coq Require Import List NArith ZArith Bool String.
 Import ListNotations.
 Require Import Codec JsonIn JsonInst JsonDoc Client Session Cli CliProofs.
+Require Import RijP1 Cipher SCipher PeerU WireProofs C08Proofs CliSplit.
 Local Open Scope N_scope.
 
 Theorem C15_contract : forall yneg i conns, let o := fst (cli_main yneg i conns) in
@@ -27,4 +28,87 @@ Theorem C15_unknown_output : forall yneg i conns, ci_output i <> 0 -> ci_output 
   forall d, fst (cli_main yneg i conns) <> CDoc d.
 Proof. exact CliProofs.C15_unknown_output. Qed.
 
+(* ---- second sentence of the property: -splitrequests ----
+   The loop of run() over ANY send function is CliSplit.run_calls_g; the loop of the command model that is extracted and
+   compared with the binary is its instance for the scripted environment: *)
+Theorem C15_loop_generic : forall c ks split reqs s w rs0,
+  run_calls c ks split (s, w, rs0) reqs =
+  let '(st, r) := run_calls_g _ (ssend c ks) split (s, w) reqs in (fst st, snd st, r).
+Proof. exact CliSplit.run_calls_generic. Qed.
+
+(* ... and its instance over the honest RSCP peer of C08 (the same send_multiple, codec, cipher and validation; any key,
+   account, checksum setting, positive timeouts, receive buffer; reply functions as in C08) satisfies the sentence: if the
+   device answers the whole request list and every single request with one message per request (f), then from a fresh (or
+   any unauthenticated, in-sync) client
+   - the split run and the unsplit run collect the same replies, map f ms - so every output format prints the same document;
+   - split: the device received the authentication request and then each top-level request in its own frame, in order;
+   - unsplit: it received the authentication request and one frame holding all requests. *)
+Section C15split.
+  Variable key : list N.
+  Hypothesis Bk : RijP1.bytes_ok key.
+  Variables user pass : list N.
+  Hypothesis Bu : Codec.bytes_ok user.
+  Hypothesis Bp : Codec.bytes_ok pass.
+  Hypothesis Hlen : N.of_nat (List.length user + List.length pass) <= 60000.
+  Variable crc : bool.
+  Variables conn_to send_to recv_to : Z.
+  Hypothesis to_pos : (0 < conn_to /\ 0 < send_to /\ 0 < recv_to)%Z.
+  Variable rbuf : nat.
+  Hypothesis rbuf_pos : (0 < rbuf)%nat.
+  Variables reply_of deny_of : list message -> list message.
+  Hypothesis reply_okm : forall ms, okm (reply_of ms).
+  Hypothesis deny_okm : forall ms, okm (deny_of ms).
+  Hypothesis reply_nonempty : forall ms, reply_of ms <> [].
+  Hypothesis deny_nonempty : forall ms, deny_of ms <> [].
+  Hypothesis auth_grants : c_auth_ok (reply_of (c_auth_req user pass)) = true.
+  Hypothesis auth_denies : c_auth_ok (deny_of (c_auth_req user pass)) = false.
+  Variable f : message -> message.
+  Variable fuel : nat.
+  Hypothesis Hfuel : (maxlen < fuel)%nat.
+  Notation psend := (psend key user pass crc conn_to send_to recv_to rbuf reply_of deny_of fuel).
+  Notation W := (world message (pstate message)).
+  Notation peer_log w := (plog message (est message (pstate message) w)).
+
+  Theorem C15_split : forall ms s (w : W),
+    cSync s w -> authed s = false -> ms <> [] -> c_valid ms = true -> okm ms ->
+    reply_of ms = map f ms -> (forall m, In m ms -> reply_of [m] = [f m]) ->
+    healthy message (S (List.length ms)) (est message (pstate message) w) ->
+    forall st1 r1 st2 r2,
+    run_calls_g _ psend true (s, w) (map (fun m => [m]) ms) = (st1, r1) ->
+    run_calls_g _ psend false (s, w) [ms] = (st2, r2) ->
+    r1 = Some (map f ms) /\ r2 = Some (map f ms) /\
+    peer_log (snd st1) = peer_log w ++ c_auth_req user pass :: map (fun m => [m]) ms /\
+    peer_log (snd st2) = peer_log w ++ [c_auth_req user pass; ms].
+  Proof. exact (CliSplit.split_equals_unsplit key Bk user pass Bu Bp Hlen crc conn_to send_to recv_to to_pos rbuf rbuf_pos reply_of deny_of reply_okm deny_okm reply_nonempty deny_nonempty auth_grants auth_denies f fuel Hfuel). Qed.
+
+  Theorem C15_split_document : forall ms s (w : W) (render : list message -> jdoc),
+    cSync s w -> authed s = false -> ms <> [] -> c_valid ms = true -> okm ms ->
+    reply_of ms = map f ms -> (forall m, In m ms -> reply_of [m] = [f m]) ->
+    healthy message (S (List.length ms)) (est message (pstate message) w) ->
+    option_map render (snd (run_calls_g _ psend true (s, w) (map (fun m => [m]) ms))) =
+    option_map render (snd (run_calls_g _ psend false (s, w) [ms])).
+  Proof. exact (CliSplit.split_same_document key Bk user pass Bu Bp Hlen crc conn_to send_to recv_to to_pos rbuf rbuf_pos reply_of deny_of reply_okm deny_okm reply_nonempty deny_nonempty auth_grants auth_denies f fuel Hfuel). Qed.
+End C15split.
+
+(* non-vacuity: a device function meeting every hypothesis for a two-request run from the fresh client, whose peer answers *)
+Definition demo_f (m : message) : message := match m with Msg t _ _ => Msg (t + 8388608) 3 (GU8 10) end.
+Definition demo_reply (q : list message) : list message :=
+  match q with [a] => [demo_f a] | [a; b] => [demo_f a; demo_f b] | _ => [Msg 8388609 3 (GU8 10)] end.
+Definition demo_ms : list message := [Msg 16777217 14 (GMsgs [Msg 5 5 (GU16 7); Msg 6 0 GNil]); Msg 17 13 (GStr [97])].
+Example C15_split_nonvacuous :
+  (forall q, demo_reply q <> []) /\ c_auth_ok (demo_reply (c_auth_req [117] [112])) = true /\
+  demo_ms <> [] /\ c_valid demo_ms = true /\ demo_reply demo_ms = map demo_f demo_ms /\
+  (forall m, In m demo_ms -> demo_reply [m] = [demo_f m]) /\
+  cSync (init_state iv0)
+        (init_world message (pstate message)
+           {| p_enc := iv0; p_dec := iv0; inflight := []; delayed := []; closed := false; script := [Answer; Answer; Answer]; plog := [] |} 4) /\
+  healthy message 3 {| p_enc := iv0; p_dec := iv0; inflight := []; delayed := []; closed := false; script := [Answer; Answer; Answer]; plog := [] |}.
+Proof.
+  split; [intros [|a [|b [|c q]]]; discriminate|]. split; [reflexivity|]. split; [discriminate|]. split; [vm_compute; reflexivity|].
+  split; [reflexivity|]. split; [intros m Hm; reflexivity|]. split.
+  - split; [|reflexivity]. cbn [est init_world script]. repeat (apply Forall_cons; [exact I|]). apply Forall_nil.
+  - left. reflexivity.
+Qed.
+
 Print Assumptions C15_contract. Print Assumptions C15_nothing_sent. Print Assumptions C15_unknown_output.
+Print Assumptions C15_loop_generic. Print Assumptions C15_split. Print Assumptions C15_split_document.
